@@ -245,17 +245,7 @@ theorem step_mz (cfg : Cfg) (s : St) (e : Ev)
       by_cases hj : (s.jpc != .join) = true
       · simp only [step, hj, if_true]; exact h0
       · exfalso
-        have hb := hne m g l n rfl
-        by_cases hs : s.stopping = true
-        · have e1 : (step cfg s (.joinDone (.ok m g l n))).2 = [] := by simp [step, hj, hs]
-          rw [e1] at hb; cases hb
-        · cases l with
-          | true =>
-            have e1 : (step cfg s (.joinDone (.ok m g true n))).2 = [.loadParts] := by simp [step, hj, hs]
-            rw [e1] at hb; cases hb
-          | false =>
-            have e1 : (step cfg s (.joinDone (.ok m g false n))).2 = [.sync (some g) m 0] := by simp [step, hj, hs]
-            rw [e1] at hb; cases hb
+        exact joinOk_ne_bad cfg s m g l n hj (hne m g l n rfl)
   | partsDone r =>
     simp only [step]; split
     · cases r with
